@@ -140,6 +140,64 @@ func manyPendingTags(n int) *gen.Doc {
 	return d
 }
 
+// overlappingStrings is a TIFF block whose n string fields (count cnt each) have value
+// offsets that overlap (each starts step bytes after the previous one): legal TIFF,
+// the same file bytes are named by many fields.
+func overlappingStrings(n, cnt, step int, bo binary.ByteOrder) *gen.Doc {
+	d := &gen.Doc{}
+	if bo == binary.LittleEndian {
+		d.Str("II*\x00")
+	} else {
+		d.Str("MM\x00*")
+	}
+	d.U32(bo, 8, "", "")
+	d.U16(bo, uint16(n), "", "")
+	valOff := 8 + 2 + n*12 + 4
+	ids := []uint16{0x010e, 0x0131, 0x013b, 0x8298, 0x0110}
+	for i := 0; i < n; i++ {
+		d.U16(bo, ids[i%len(ids)], "", "")
+		d.U16(bo, 2, "", "")
+		d.U32(bo, uint32(cnt), "", "")
+		d.U32(bo, uint32(valOff+i*step), "", "")
+	}
+	d.U32(bo, 0, "", "")
+	d.B = append(d.B, pattern(cnt+n*step, 'o')...)
+	d.B = append(d.B, 0)
+	return d
+}
+
+// amplificationSeeds name the same file bytes many times over: the memory a decode
+// allocates must follow the file's length, not the number of names.
+var amplificationCache []seed
+
+func amplificationSeeds() []seed {
+	if amplificationCache != nil {
+		return amplificationCache
+	}
+	var out []seed
+	add := func(name, kind string, d *gen.Doc) {
+		out = append(out, seed{name: name, kind: kind, doc: d, gen: true})
+	}
+	II, MM := binary.LittleEndian, binary.BigEndian
+	for _, c := range []struct{ n, cnt, step int }{{83, 4096, 1}, {83, 1000, 0}, {40, 4000, 100}, {83, 4096, 64}} {
+		add(fmt.Sprintf("tiff-%d-strings-of-%d-overlapping-by-step-%d", c.n, c.cnt, c.step), "tiff", overlappingStrings(c.n, c.cnt, c.step, II))
+		for _, segsN := range []int{24, 64} {
+			var segs []gen.Seg
+			for i := 0; i < segsN; i++ {
+				bo := binary.ByteOrder(II)
+				if i%2 == 1 {
+					bo = MM
+				}
+				segs = append(segs, gen.SegExif(overlappingStrings(c.n, c.cnt, c.step, bo)))
+			}
+			j, _ := gen.BuildJPEG(segs, true)
+			add(fmt.Sprintf("jpeg-%d-exif-segments-each-%d-strings-of-%d-overlapping-by-step-%d", segsN, c.n, c.cnt, c.step), "jpeg", j)
+		}
+	}
+	amplificationCache = out
+	return out
+}
+
 // degenerateRecords are TIFF blocks holding a single supported field whose value is cut down to a
 // shape its parser does not expect (count 0, a string or date of 1..3 characters, a rational without
 // its second half): the value then sits in the 4-byte slot although the parser was written for an
